@@ -74,6 +74,9 @@ sys.exit(1 if bad else 0)
 
 
 def replay(ob):
+    if ob["name"].startswith("C12.value."):
+        from contracts import c12_autocast
+        return c12_autocast.LITERAL_VALUE
     if "requesting_two_literals_never_raises" in ob["name"]:
         return NAN_TWICE
     if "any_length" in ob["name"] or "cast_inputs.loop" in ob["name"]:
